@@ -185,6 +185,8 @@ def session_scenarios(rnd, n):
         ident["state"] = rnd.getrandbits(8)
         kind = rnd.choice(["cip", "logix"])
         calls = [{"api": "open"}, {"api": "_list_identity"}, {"api": "get_module_info", "slot": rnd.randint(0, 16)}]
+        if kind == "cip" and k % 2:
+            calls = [{"api": "list_identity", "path": "10.2.2.2/bp/0"}] + calls          # the classmethod, before this driver is opened
         sc = {"id": "id%d" % k, "family": "identity-" + kind, "target": {"policy": "LargeOK", "identity": ident},
               "driver": {"kind": kind, "path": "10.2.2.2/bp/0" if kind == "cip" else "10.2.2.2", "route": [S.port_seg("bp", 0)]}}
         if kind == "logix":
